@@ -588,6 +588,7 @@ func Run(cfg *common.Config) (*common.Report, error) {
 	g.emptyEnumStream()
 	g.suiteStream()
 	g.historyStream(scs, cfg.Pick(12, 300))
+	g.bigNumberStream()
 	for i, in := range g.cases {
 		if i%83 == 0 {
 			rep.Sample(map[string]any{"input": in, "observed": className[g.obs[i]]})
